@@ -46,6 +46,21 @@ type c37cOp struct {
 	m    int    // member index (S)
 	a    int    // address index (R G E MO tg)
 	n    int    // node index (ML MO)
+	f    int    // form the address is given in (R G E MO): 0 = 16 bytes IP (c37Addr), 1 = 4 bytes IP
+}
+
+// c37AddrForm: address i in the 16 bytes (f=0, what c37Addr gives) or the 4 bytes (f=1) form of its IPv4 address.
+func c37AddrForm(i, f int) *net.UDPAddr {
+	if f == 0 {
+		return c37Addr(i)
+	}
+
+	return &net.UDPAddr{IP: net.IP{10, 0, 0, byte(i)}, Port: 4000 + i}
+}
+
+// c37SameAddr: one UDP address, whatever the representation of the IP (not decided by the memberid() under test).
+func c37SameAddr(x, y *net.UDPAddr) bool {
+	return x.Port == y.Port && x.Zone == y.Zone && x.IP.Equal(y.IP)
 }
 
 type c37cEnv struct {
@@ -53,6 +68,7 @@ type c37cEnv struct {
 	nodes     []string
 	nodeaddrs []base.Address
 	naddrs    int
+	nbase     int // members[:nbase] have their address in the 16 bytes form; the rest are the same members in the 4 bytes form
 }
 
 func c37cNewEnv(t *testing.T) *c37cEnv {
@@ -78,6 +94,20 @@ func c37cNewEnv(t *testing.T) *c37cEnv {
 		env.members = append(env.members, c37Member{label: label, node: env.nodes[s[0]-1], addr: c37Addr(s[1]), m: m})
 	}
 
+	env.nbase = len(env.members)
+
+	// the same members with the IPv4 address in the 4 bytes form (mixed-forms scenarios only)
+	for _, s := range [][2]int{{1, 1}} {
+		label := fmt.Sprintf("n%d@a%d~ip4", s[0], s[1])
+
+		m, err := NewMember(label, c37AddrForm(s[1], 1), env.nodeaddrs[s[0]-1], priv.Publickey(), "", true)
+		if err != nil {
+			t.Fatal(err)
+		}
+
+		env.members = append(env.members, c37Member{label: label, node: env.nodes[s[0]-1], addr: c37AddrForm(s[1], 1), m: m})
+	}
+
 	return env
 }
 
@@ -92,6 +122,13 @@ func (env *c37cEnv) member(label string) int {
 }
 
 func (env *c37cEnv) opString(o c37cOp) string {
+	if o.f != 0 {
+		p := o
+		p.f = 0
+
+		return strings.Replace(env.opString(p), fmt.Sprintf("a%d)", o.a), fmt.Sprintf("a%d/ip4)", o.a), 1)
+	}
+
 	switch o.kind {
 	case "S":
 		return "Set(" + env.members[o.m].label + ")"
@@ -122,7 +159,9 @@ func (env *c37cEnv) newPool(placement string) *membersPool {
 	place := map[string]uint64{}
 
 	for i := 1; i <= env.naddrs; i++ {
+		// whatever key the table derives from either form of the address goes to the shard of the address
 		place[memberid(c37Addr(i))] = uint64(i - 1)
+		place[memberid(c37AddrForm(i, 1))] = uint64(i - 1)
 	}
 
 	for i, n := range env.nodes {
@@ -139,7 +178,8 @@ func (env *c37cEnv) newPool(placement string) *membersPool {
 
 		i, found := place[s]
 		if !found {
-			panic("unplaced key " + s)
+			// a key the table does not derive from any fixture address with the unchanged code: fixed spare shard
+			i = size - 1
 		}
 
 		switch placement {
@@ -268,7 +308,7 @@ func (env *c37cEnv) apply(m c37cModel, o c37cOp) (string, c37cModel) {
 
 func (env *c37cEnv) addrIndex(addr *net.UDPAddr) int {
 	for i := 1; i <= env.naddrs; i++ {
-		if memberid(c37Addr(i)) == memberid(addr) {
+		if c37SameAddr(c37Addr(i), addr) {
 			return i
 		}
 	}
@@ -284,7 +324,7 @@ func (env *c37cEnv) label(m Member) string {
 	for i := range env.members {
 		// BaseMember is not comparable; the fixture names are unique
 		if env.members[i].label == m.Name() && env.members[i].node == m.Address().String() &&
-			memberid(env.members[i].addr) == memberid(m.Addr()) {
+			c37SameAddr(env.members[i].addr, m.Addr()) {
 			return env.members[i].label
 		}
 	}
@@ -299,25 +339,25 @@ func (env *c37cEnv) do(pool *membersPool, o c37cOp) string {
 	case "S":
 		return fmt.Sprint(pool.Set(env.members[o.m].m))
 	case "R":
-		removed, err := pool.Remove(c37Addr(o.a))
+		removed, err := pool.Remove(c37AddrForm(o.a, o.f))
 		if err != nil {
 			return "error:" + err.Error()
 		}
 
 		return fmt.Sprint(removed)
 	case "G":
-		switch m, found := pool.Get(c37Addr(o.a)); {
+		switch m, found := pool.Get(c37AddrForm(o.a, o.f)); {
 		case !found:
 			return "none"
 		default:
 			return env.label(m)
 		}
 	case "E":
-		return fmt.Sprint(pool.Exists(c37Addr(o.a)))
+		return fmt.Sprint(pool.Exists(c37AddrForm(o.a, o.f)))
 	case "ML":
 		return fmt.Sprint(pool.MembersLen(env.nodeaddrs[o.n-1]))
 	case "MO":
-		n, others, found := pool.MembersLenOthers(env.nodeaddrs[o.n-1], c37Addr(o.a))
+		n, others, found := pool.MembersLenOthers(env.nodeaddrs[o.n-1], c37AddrForm(o.a, o.f))
 
 		return fmt.Sprintf("%d/%d/%v", n, others, found)
 	case "T":
@@ -347,6 +387,20 @@ func (env *c37cEnv) realFinal(pool *membersPool) (fin, inconsistent string) {
 
 	for a := 1; a <= env.naddrs; a++ {
 		m, found := pool.addrs.Value(memberid(c37Addr(a)))
+
+		// one address, one entry: a table that keeps a second entry under the key of the other form is rendered
+		// with both (no model state looks like that)
+		if k := memberid(c37AddrForm(a, 1)); k != memberid(c37Addr(a)) {
+			switch m4, found4 := pool.addrs.Value(k); {
+			case found4 && found:
+				as = append(as, fmt.Sprintf("a%d:%s+%s", a, env.label(m), env.label(m4)))
+
+				continue
+			case found4:
+				m, found = m4, true
+			}
+		}
+
 		if !found {
 			continue
 		}
@@ -726,6 +780,7 @@ func (env *c37cEnv) scenarios() []c37cScenario {
 	ML := func(n int) c37cOp { return c37cOp{kind: "ML", n: n} }
 	MO := func(n, a int) c37cOp { return c37cOp{kind: "MO", n: n, a: a} }
 	T := c37cOp{kind: "T"}
+	ip4 := func(o c37cOp) c37cOp { o.f = 1; return o } // the address of the call in the 4 bytes form
 
 	I := func(ls ...string) []int {
 		var l []int
@@ -792,6 +847,10 @@ func (env *c37cEnv) scenarios() []c37cScenario {
 		{"traverse-leave-join", all, I("n1@a1"), TH{{R(1), S("n2@a3")}, {T}}},
 		{"traverse-takeover", both, I("n1@a1", "n1@a2"), TH{{S("n2@a1")}, {R(2)}, {T}}},
 		{"traverse-then-lookup", both, nil, TH{{S("n1@a1")}, {T, E(1)}}},
+
+		// mixed address forms: joined by the 16 bytes form; the leave and the re-join come by the 4 bytes form
+		// (what memberlist events carry), the reader asks by the 16 bytes form and lists by the 4 bytes form
+		{"mixed-forms-leave-races-rejoin", both, I("n1@a1"), TH{{ip4(R(1))}, {S("n1@a1~ip4")}, {E(1), ip4(MO(1, 1))}}},
 	}
 
 	var out []c37cScenario
